@@ -6,7 +6,7 @@ import json, os, re, shutil
 ST = "/verif/seeded/_staging"
 OUT = "/verif/seeded"
 RELATED = {"C01": ["C07", "C16"], "C02": ["C05"], "C03": ["C06", "C20"], "C04": ["C16"], "C05": ["C02"], "C06": ["C03"], "C07": ["C01"], "C08": ["C07"], "C11": ["C18"], "C12": ["C07"], "C18": ["C11"], "C19": ["C10", "C16"], "C20": ["C03"]}
-EXTRA = {"C08-m4": ["C16"], "C16-m4": ["C08"], "C10-m5": ["C05"], "C17-m5": ["C16", "C01"], "C17-m4": ["C06", "C03"], "C07-m5": ["C12"], "C07-m4": ["C09", "C08"], "C09-m5": ["C07"], "C10-m4": ["C05"], "C14-m5": ["C16"], "C15-m5": ["C16"], "C16-m5": ["C01"]}
+EXTRA = {"C05-m6": ["C10"], "C10-m6": ["C05"], "C06-m6": ["C03"], "C03-m7": ["C06"], "C07-m6": ["C01", "C12"], "C01-m6": ["C07", "C12"], "C07-m7": ["C20"], "C20-m6": ["C07"], "C04-m6": ["C16"], "C16-m6": ["C04"], "C08-m7": ["C20"], "C16-m7": ["C01", "C02"], "C18-m7": ["C16"], "C19-m7": [], "C15-m7": [], "C13-m7": ["C03"], "C14-m7": ["C16"], "C12-m6": ["C08", "C07"], "C11-m6": [], "C08-m4": ["C16"], "C16-m4": ["C08"], "C10-m5": ["C05"], "C17-m5": ["C16", "C01"], "C17-m4": ["C06", "C03"], "C07-m5": ["C12"], "C07-m4": ["C09", "C08"], "C09-m5": ["C07"], "C10-m4": ["C05"], "C14-m5": ["C16"], "C15-m5": ["C16"], "C16-m5": ["C01"]}
 confirm = {}
 for l in open(f"{OUT}/confirm.log"):
     m = re.match(r"CONFIRM (\S+) mut(\d) \| clean-demo: (.*?) \| mutant-demo: (.*?) \| mutant-suite: (.*)", l.strip())
@@ -20,10 +20,10 @@ def section(md, pat):
         if on: out.append(l)
     return "\n".join(out).strip()
 idx = json.load(open(f"{OUT}/INDEX.json"))
-kept = [k for k in idx["kept"] if not re.search(r"-m[45]$", k)]
+kept = [k for k in idx["kept"] if not re.search(r"-m[4567]$", k)]
 dropped = idx.get("dropped", {})
 for prop in sorted(os.listdir(ST)):
-    for n in (4, 5):
+    for n in (4, 5, 6, 7):
         p = f"{ST}/{prop}/mut{n}.patch"
         if not os.path.exists(p): continue
         mid = f"{prop}-m{n}"
@@ -43,7 +43,7 @@ for prop in sorted(os.listdir(ST)):
         if md: open(f"{d}/notes.md", "w").write(md)
         meta = {
             "id": mid, "breaks_property": prop, "title": title,
-            "origin": "second batch: written by a fresh sub-agent that saw only the text of the property and a scratch worktree of /repo; nothing from /verif",
+            "origin": ("second" if n < 6 else "third") + " batch: written by a fresh sub-agent that saw only the text of the property and a scratch worktree of /repo; nothing from /verif",
             "needs_to_manifest": needs,
             "confirmed": {"how": "tools/confirm_mutant.sh in a scratch worktree: (a) demo.rs as tests/<name>.rs on the unchanged tree with --features experimental,multithreaded,test-util,verif-hooks; (b) cargo test --workspace --no-fail-fast --offline with the change applied; (c) the demo with the change applied", "clean_demo": c[0], "changed_demo": c[1], "changed_suite": c[2]},
             "checks_run": [prop] + [x for x in RELATED.get(prop, []) + EXTRA.get(mid, []) if x != prop],
@@ -53,4 +53,4 @@ for prop in sorted(os.listdir(ST)):
         json.dump(meta, open(f"{d}/meta.json", "w"), indent=1)
         kept.append(mid)
 json.dump({"kept": sorted(kept), "dropped": dropped}, open(f"{OUT}/INDEX.json", "w"), indent=1)
-print(len(kept), "kept;", {k: v for k, v in dropped.items() if re.search(r"-m[45]$", k)})
+print(len(kept), "kept;", {k: v for k, v in dropped.items() if re.search(r"-m[4567]$", k)})
